@@ -62,10 +62,11 @@ Definition live_at (quote : text -> text) (tbl : table) (r : registry) (cur href
   forall a, snd (resolve cur href) = Some a ->
     exists n, In (fst (resolve cur href), n) (site_anchors quote tbl r) /\ (a = n \/ a = quote n).
 
-(* the docstring shown for i comes from an object documented on the same page as i (i itself, or a member of the same
-   class/module): exactly when format_docstring hands taglink the page the docstring is rendered on *)
+(* the linker of the docstring's source holds the page the docstring is rendered on: the source is i itself or a member
+   of the same class / module, AND its linker was not created before a re-export moved it to another page --
+   exactly when format_docstring hands taglink the page the docstring is rendered on *)
 Definition same_page_source (r : registry) (i : nat) : Prop :=
-  match docsource_of r i with Some s => page_obj r s = page_obj r i | None => True end.
+  match docsource_of r i with Some s => linker_page_of r s = page_obj r i | None => True end.
 
 (* the cross-reference entry e stands on the page of p, in the docstring rendered for i (p itself or a member of p) *)
 Definition xref_from (quote : text -> text) (tbl : table) (r : registry) (e : entry) (p i : nat) : Prop :=
